@@ -104,7 +104,7 @@ def minimise(pool, mod, spec, res, tier, budget=160):
     return cur, cur_res, tried
 
 
-def write_replay(prop, tier, vseed, spec, res, hashseed, original_spec=None, tried=0):
+def write_replay(prop, tier, vseed, spec, res, hashseed, original_spec=None, tried=0, optimize=False):
     d = os.path.join(os.environ.get("MDSIM_REPLAY_DIR") or os.path.join(VERIF, "replays"), prop)
     os.makedirs(d, exist_ok=True)
     body = {
@@ -112,6 +112,7 @@ def write_replay(prop, tier, vseed, spec, res, hashseed, original_spec=None, tri
         "verif_seed": vseed,
         "tier": tier,
         "hashseed": hashseed,
+        "optimize": bool(optimize),  # the simulated process ran under `python -O`
         "spec": spec,
         "expect": {"oracle": res.get("oracle"), "key": res.get("key"), "digest": res.get("digest"), "msg": res.get("msg")},
         "minimisation": {"candidates_tried": tried, "original_spec_digest": core.digest(original_spec) if original_spec is not None else None},
@@ -128,7 +129,7 @@ def replay_file(path: str, quiet=False) -> tuple[int, dict | None]:
     prop = body["property"]
     mod = importlib.import_module("mdsim.props." + prop.lower())
     hs = body.get("hashseed") or 1
-    with core.Pool([hs], n_servers=1) as pool:
+    with core.Pool([hs], n_servers=1, optimize_slots=(0,) if body.get("optimize") else ()) as pool:
         job = {"prop": prop, "tier": body.get("tier", "quick"), "timeout": getattr(mod, "JOB_TIMEOUT", 300.0), "spec": body["spec"]}
         res = pool.run([job])[0]
     exp = body["expect"]
@@ -171,7 +172,8 @@ def cmd_run(args) -> int:
     viol_reported = 0
     known_lines = []
     n_servers = getattr(mod, "N_SERVERS", {}).get(tier)
-    with core.Pool(hashseeds, n_servers=n_servers) as pool:
+    opt_slots = tuple(getattr(mod, "OPTIMIZE_SLOTS", {}).get(tier, ()))
+    with core.Pool(hashseeds, n_servers=n_servers, optimize_slots=opt_slots) as pool:
         t_ready = time.time()
         if hasattr(mod, "execute_all"):
             pairs, extra_cov = mod.execute_all(pool, rng, tier, n)
@@ -206,7 +208,8 @@ def cmd_run(args) -> int:
             ms, mr, tried = minimise(pool, mod, spec0, r, tier)
             hs = hashseeds[(ms.get("slot") or 0) % len(hashseeds)] if isinstance(ms, dict) else hashseeds[0]
             slim = {k: v for k, v in mr.items() if k not in ("draws", "spec", "stats")}
-            path = write_replay(prop, tier, vseed, ms, slim, hs, original_spec=spec0, tried=tried)
+            opt = isinstance(ms, dict) and ((ms.get("slot") or 0) % len(hashseeds)) in pool.optimize_slots and ms.get("slot") is not None
+            path = write_replay(prop, tier, vseed, ms, slim, hs, original_spec=spec0, tried=tried, optimize=opt)
             code, rres = replay_file(path, quiet=True)
             if code == 3:
                 # same oracle, different event digest: replay once more - if the oracle fires again the violation is real and it is
@@ -260,7 +263,7 @@ def cmd_run(args) -> int:
         "runs_ok": n_ok,
         "counters": {k: stats[k] for k in sorted(stats)},
         "runs_per_hour": int(len(pairs) / max(1e-9, (t_runs - t_ready)) * 3600),
-        "seeds": {"VERIF_SEED": vseed, "root": root, "per_run": "H(root, i) drawn from random.Random(root)", "hashseeds": hashseeds},
+        "seeds": {"VERIF_SEED": vseed, "root": root, "per_run": "H(root, i) drawn from random.Random(root)", "hashseeds": hashseeds, "slots_running_python_-O": sorted(opt_slots)},
         "simulated_time": "not applicable: no library logic reads a clock for decisions (DESIGN 2.3 S-CLOCK)",
         "components": getattr(mod, "COMPONENTS", {}),
         "known_findings_hit": known_lines,
